@@ -151,6 +151,8 @@ def internal_errors(w: Any) -> List[dict]:
     for ctx in w.exc_contexts:
         exc = ctx.get("exception")
         msg = ctx.get("message", "")
+        if type(exc).__name__ == "CancelledError" and "StreamReaderProtocol.connection_made" in msg:
+            continue  # CPython 3.12.1's own done-callback calling task.exception() on a cancelled handler task
         key = exc_site(exc) if exc is not None else "noexc:" + msg[:40]
         out.append(V("loop-exception-handler", key, f"{msg}: {exc!r}"))
     return out
